@@ -1,13 +1,954 @@
-//! C14: generators and executor (see DESIGN.md section 4, C14).
+//! C14: key export/import round-trips; JWK import tolerant, strict, panic-free (DESIGN.md section 4, C14).
+//!
+//! Case kinds
+//!   c14:b64     {"hex": <text bytes>, "n": N}                `OptAttr::decode_base64` into an N-byte array
+//!   c14:parse   {"hex": <text bytes>, "members"?: […]}        `JwkParts::try_from_str`
+//!   c14:jwk     {"hex": <text bytes>, "prim": {…}}            `Box<AnyKey>::from_jwk`, then every export of the key
+//!   c14:secret  {"alg", "bytes", "prim"}                      `from_secret_bytes`, then every export
+//!   c14:public  {"alg", "bytes", "prim"}                      `from_public_bytes`, then every export
+//! "class" / "expect" / "want_*" are read by the oracle only; "prim" (table of third-party curve results for
+//! Ed25519 / X25519 / BLS12-381) is read by the Lean model only.
 use crate::rng::Rng;
-use serde_json::{json, Value};
+use askar_crypto::alg::{AesTypes, AnyKey, AnyKeyCreate, BlsCurves, Chacha20Types, EcCurves, HasKeyAlg, KeyAlg};
+use askar_crypto::jwk::{FromJwk, JwkBufferEncoder, JwkEncoderMode, JwkParts, ToJwk};
+use askar_crypto::repr::{ToPublicBytes, ToSecretBytes};
+use serde_json::{json, Map, Value};
+use std::panic::{catch_unwind, AssertUnwindSafe};
 
-/// generated cases for this property (each a JSON object with "kind": "c14…")
-pub fn gen(_r: &mut Rng, _thorough: bool, _count: Option<usize>) -> Vec<Value> {
-    vec![]
+// ---------------------------------------------------------------------------------------------------------------------
+// independent primitives: SHA-256 (FIPS 180-4) and strict unpadded base64url (RFC 4648 §5)
+
+const K256: [u32; 64] = [
+    0x428a2f98, 0x71374491, 0xb5c0fbcf, 0xe9b5dba5, 0x3956c25b, 0x59f111f1, 0x923f82a4, 0xab1c5ed5, 0xd807aa98, 0x12835b01,
+    0x243185be, 0x550c7dc3, 0x72be5d74, 0x80deb1fe, 0x9bdc06a7, 0xc19bf174, 0xe49b69c1, 0xefbe4786, 0x0fc19dc6, 0x240ca1cc,
+    0x2de92c6f, 0x4a7484aa, 0x5cb0a9dc, 0x76f988da, 0x983e5152, 0xa831c66d, 0xb00327c8, 0xbf597fc7, 0xc6e00bf3, 0xd5a79147,
+    0x06ca6351, 0x14292967, 0x27b70a85, 0x2e1b2138, 0x4d2c6dfc, 0x53380d13, 0x650a7354, 0x766a0abb, 0x81c2c92e, 0x92722c85,
+    0xa2bfe8a1, 0xa81a664b, 0xc24b8b70, 0xc76c51a3, 0xd192e819, 0xd6990624, 0xf40e3585, 0x106aa070, 0x19a4c116, 0x1e376c08,
+    0x2748774c, 0x34b0bcb5, 0x391c0cb3, 0x4ed8aa4a, 0x5b9cca4f, 0x682e6ff3, 0x748f82ee, 0x78a5636f, 0x84c87814, 0x8cc70208,
+    0x90befffa, 0xa4506ceb, 0xbef9a3f7, 0xc67178f2,
+];
+
+pub fn sha256(msg: &[u8]) -> [u8; 32] {
+    let mut h: [u32; 8] = [0x6a09e667, 0xbb67ae85, 0x3c6ef372, 0xa54ff53a, 0x510e527f, 0x9b05688c, 0x1f83d9ab, 0x5be0cd19];
+    let mut m = msg.to_vec();
+    m.push(0x80);
+    while m.len() % 64 != 56 { m.push(0); }
+    m.extend_from_slice(&((msg.len() as u64) * 8).to_be_bytes());
+    for blk in m.chunks(64) {
+        let mut w = [0u32; 64];
+        for i in 0..16 { w[i] = u32::from_be_bytes([blk[4 * i], blk[4 * i + 1], blk[4 * i + 2], blk[4 * i + 3]]); }
+        for i in 16..64 {
+            let s0 = w[i - 15].rotate_right(7) ^ w[i - 15].rotate_right(18) ^ (w[i - 15] >> 3);
+            let s1 = w[i - 2].rotate_right(17) ^ w[i - 2].rotate_right(19) ^ (w[i - 2] >> 10);
+            w[i] = w[i - 16].wrapping_add(s0).wrapping_add(w[i - 7]).wrapping_add(s1);
+        }
+        let mut v = h;
+        for i in 0..64 {
+            let s1 = v[4].rotate_right(6) ^ v[4].rotate_right(11) ^ v[4].rotate_right(25);
+            let ch = (v[4] & v[5]) ^ (!v[4] & v[6]);
+            let t1 = v[7].wrapping_add(s1).wrapping_add(ch).wrapping_add(K256[i]).wrapping_add(w[i]);
+            let s0 = v[0].rotate_right(2) ^ v[0].rotate_right(13) ^ v[0].rotate_right(22);
+            let maj = (v[0] & v[1]) ^ (v[0] & v[2]) ^ (v[1] & v[2]);
+            let t2 = s0.wrapping_add(maj);
+            v = [t1.wrapping_add(t2), v[0], v[1], v[2], v[3].wrapping_add(t1), v[4], v[5], v[6]];
+        }
+        for i in 0..8 { h[i] = h[i].wrapping_add(v[i]); }
+    }
+    let mut out = [0u8; 32];
+    for i in 0..8 { out[4 * i..4 * i + 4].copy_from_slice(&h[i].to_be_bytes()); }
+    out
 }
 
-/// run one case against the real code; returns {"out": …, "oracle": […], "feat": {…}}
-pub fn exec(_case: &Value, _tag: &str) -> Value {
-    json!({"out": {"err": "not implemented"}})
+const B64: &[u8; 64] = b"ABCDEFGHIJKLMNOPQRSTUVWXYZabcdefghijklmnopqrstuvwxyz0123456789-_";
+
+pub fn b64e(b: &[u8]) -> String {
+    let mut bits: u32 = 0;
+    let mut nb = 0;
+    let mut out = String::new();
+    for &x in b {
+        bits = (bits << 8) | x as u32;
+        nb += 8;
+        while nb >= 6 { nb -= 6; out.push(B64[((bits >> nb) & 63) as usize] as char); }
+    }
+    if nb > 0 { out.push(B64[((bits << (6 - nb)) & 63) as usize] as char); }
+    out
+}
+
+/// strict: alphabet only (no '='), no dangling character, unused trailing bits zero
+pub fn b64d(s: &[u8]) -> Option<Vec<u8>> {
+    let mut bits: u32 = 0;
+    let mut nb = 0;
+    let mut out = vec![];
+    for &c in s {
+        let v = B64.iter().position(|&a| a == c)? as u32;
+        bits = ((bits << 6) | v) & 0xffff;
+        nb += 6;
+        if nb >= 8 { nb -= 8; out.push((bits >> nb) as u8); }
+    }
+    if nb >= 6 { return None; }
+    if bits & ((1 << nb) - 1) != 0 { return None; }
+    Some(out)
+}
+
+// ---------------------------------------------------------------------------------------------------------------------
+// algorithms
+
+#[derive(Clone, Copy, PartialEq, Eq, Debug)]
+enum Class { Sym, Okp, Ec, Bls }
+
+impl Class {
+    fn s(self) -> &'static str { match self { Class::Sym => "sym", Class::Okp => "okp", Class::Ec => "ec", Class::Bls => "bls" } }
+}
+
+struct AlgInfo { name: &'static str, alg: KeyAlg, class: Class, sk: usize, pk: usize, crv: &'static str }
+
+fn algs() -> Vec<AlgInfo> {
+    let a = |name, alg, class, sk, pk, crv| AlgInfo { name, alg, class, sk, pk, crv };
+    vec![
+        a("a128gcm", KeyAlg::Aes(AesTypes::A128Gcm), Class::Sym, 16, 0, ""),
+        a("a256gcm", KeyAlg::Aes(AesTypes::A256Gcm), Class::Sym, 32, 0, ""),
+        a("a128cbchs256", KeyAlg::Aes(AesTypes::A128CbcHs256), Class::Sym, 32, 0, ""),
+        a("a256cbchs512", KeyAlg::Aes(AesTypes::A256CbcHs512), Class::Sym, 64, 0, ""),
+        a("a128kw", KeyAlg::Aes(AesTypes::A128Kw), Class::Sym, 16, 0, ""),
+        a("a256kw", KeyAlg::Aes(AesTypes::A256Kw), Class::Sym, 32, 0, ""),
+        a("bls12381g1", KeyAlg::Bls12_381(BlsCurves::G1), Class::Bls, 32, 48, "BLS12381_G1"),
+        a("bls12381g2", KeyAlg::Bls12_381(BlsCurves::G2), Class::Bls, 32, 96, "BLS12381_G2"),
+        a("bls12381g1g2", KeyAlg::Bls12_381(BlsCurves::G1G2), Class::Bls, 32, 144, "BLS12381_G1G2"),
+        a("c20p", KeyAlg::Chacha20(Chacha20Types::C20P), Class::Sym, 32, 0, ""),
+        a("xc20p", KeyAlg::Chacha20(Chacha20Types::XC20P), Class::Sym, 32, 0, ""),
+        a("ed25519", KeyAlg::Ed25519, Class::Okp, 32, 32, "Ed25519"),
+        a("x25519", KeyAlg::X25519, Class::Okp, 32, 32, "X25519"),
+        a("k256", KeyAlg::EcCurve(EcCurves::Secp256k1), Class::Ec, 32, 33, "secp256k1"),
+        a("p256", KeyAlg::EcCurve(EcCurves::Secp256r1), Class::Ec, 32, 33, "P-256"),
+        a("p384", KeyAlg::EcCurve(EcCurves::Secp384r1), Class::Ec, 48, 49, "P-384"),
+    ]
+}
+
+fn alg_by_name(name: &str) -> Option<AlgInfo> { algs().into_iter().find(|a| a.name == name) }
+fn alg_by_keyalg(k: KeyAlg) -> AlgInfo { algs().into_iter().find(|a| a.alg == k).unwrap() }
+
+fn ek(e: &askar_crypto::Error) -> &'static str {
+    use askar_crypto::ErrorKind::*;
+    match e.kind() {
+        Custom => "Custom", Encryption => "Encryption", ExceededBuffer => "ExceededBuffer", Invalid => "Invalid",
+        InvalidKeyData => "InvalidKeyData", InvalidNonce => "InvalidNonce", MissingSecretKey => "MissingSecretKey",
+        Unexpected => "Unexpected", Usage => "Usage", Unsupported => "Unsupported",
+    }
+}
+
+fn jerr(kind: &str) -> Value { json!({ "err": kind }) }
+
+type Key = Box<AnyKey>;
+
+/// run a library call; a panic becomes Err("Panic")
+fn guarded<T>(f: impl FnOnce() -> Result<T, askar_crypto::Error>) -> Result<T, &'static str> {
+    match catch_unwind(AssertUnwindSafe(f)) {
+        Ok(Ok(v)) => Ok(v),
+        Ok(Err(e)) => Err(ek(&e)),
+        Err(_) => Err("Panic"),
+    }
+}
+
+fn text_res(r: Result<Vec<u8>, &'static str>) -> Value {
+    match r { Ok(v) => Value::String(String::from_utf8_lossy(&v).into_owned()), Err(k) => jerr(k) }
+}
+
+fn hex_res(r: Result<Vec<u8>, &'static str>) -> Value {
+    match r { Ok(v) => Value::String(hex::encode(v)), Err(k) => jerr(k) }
+}
+
+/// the text the real encoder hashes for the thumbprint
+fn thumb_pre(k: &AnyKey, alg: Option<KeyAlg>) -> Result<Vec<u8>, &'static str> {
+    guarded(|| {
+        let mut v: Vec<u8> = Vec::new();
+        let mut enc = JwkBufferEncoder::new(&mut v, JwkEncoderMode::Thumbprint).alg(alg);
+        k.encode_jwk(&mut enc)?;
+        enc.finalize()?;
+        Ok(v)
+    })
+}
+
+fn views(k: &AnyKey, alg: Option<KeyAlg>) -> Map<String, Value> {
+    let mut m = Map::new();
+    m.insert("jwk_public".into(), text_res(guarded(|| k.to_jwk_public(alg).map(|s| s.into_bytes()))));
+    m.insert("thumb_pre".into(), text_res(thumb_pre(k, alg)));
+    m
+}
+
+/// everything observable about a key
+fn summary(k: &AnyKey) -> Value {
+    let info = alg_by_keyalg(k.algorithm());
+    let mut m = Map::new();
+    m.insert("alg".into(), json!(info.name));
+    m.insert("secret".into(), hex_res(guarded(|| k.to_secret_bytes().map(|b| b.to_vec()))));
+    m.insert("public".into(), hex_res(guarded(|| k.to_public_bytes().map(|b| b.to_vec()))));
+    m.insert("jwk_secret".into(), text_res(guarded(|| k.to_jwk_secret(None).map(|b| b.to_vec()))));
+    m.extend(views(k, None));
+    if info.name == "bls12381g1g2" {
+        m.insert("g1".into(), Value::Object(views(k, Some(KeyAlg::Bls12_381(BlsCurves::G1)))));
+        m.insert("g2".into(), Value::Object(views(k, Some(KeyAlg::Bls12_381(BlsCurves::G2)))));
+    }
+    Value::Object(m)
+}
+
+fn import_secret(alg: KeyAlg, b: &[u8]) -> Result<Key, &'static str> { guarded(|| Key::from_secret_bytes(alg, b)) }
+fn import_public(alg: KeyAlg, b: &[u8]) -> Result<Key, &'static str> { guarded(|| Key::from_public_bytes(alg, b)) }
+fn import_jwk(text: &str) -> Result<Key, &'static str> { guarded(|| Key::from_jwk(text)) }
+
+// ---------------------------------------------------------------------------------------------------------------------
+// the property oracle (independent of the Lean model)
+
+fn fail(or: &mut Vec<Value>, sig: String, detail: Value) { or.push(json!({ "sig": sig, "detail": detail })); }
+
+/// RFC 7638 / RFC 8037 canonical thumbprint input built from a JWK parsed by serde_json
+fn rfc7638_input(jwk: &Value) -> Option<String> {
+    let o = jwk.as_object()?;
+    let kty = o.get("kty")?.as_str()?;
+    let names: &[&str] = match kty { "EC" => &["crv", "kty", "x", "y"], "OKP" => &["crv", "kty", "x"], "oct" => &["k", "kty"], _ => return None };
+    let mut s = String::from("{");
+    for (i, n) in names.iter().enumerate() {
+        if i > 0 { s.push(','); }
+        s.push_str(&format!("{}:{}", serde_json::to_string(n).ok()?, serde_json::to_string(o.get(*n)?.as_str()?).ok()?));
+    }
+    s.push('}');
+    Some(s)
+}
+
+fn check_thumb(or: &mut Vec<Value>, k: &AnyKey, alg: Option<KeyAlg>, jwk_text: &Value, pre: &Value, class: Class, view: &str) {
+    let tp = guarded(|| k.to_jwk_thumbprint(alg));
+    let tp = match tp { Ok(t) => t, Err(e) => { fail(or, format!("thumbprint:ok->err:{}:{}:{}", e, class.s(), view), json!(null)); return; } };
+    let parsed: Option<Value> = jwk_text.as_str().and_then(|t| serde_json::from_str(t).ok());
+    match parsed.as_ref().and_then(rfc7638_input) {
+        Some(inp) => {
+            let want = b64e(&sha256(inp.as_bytes()));
+            if want != tp { fail(or, format!("thumbprint:rfc7638-mismatch:{}:{}", class.s(), view), json!({"got": tp, "want": want, "input": inp})); }
+            if pre.as_str() != Some(inp.as_str()) { fail(or, format!("thumbprint:hashed-text-not-canonical:{}:{}", class.s(), view), json!({"hashed": pre, "want": inp})); }
+        }
+        None => fail(or, format!("thumbprint:no-reference-jwk:{}:{}", class.s(), view), json!({"jwk": jwk_text})),
+    }
+}
+
+/// checks on an accepted / constructed key: round trips in all three forms, no secret in public exports, thumbprints
+fn check_key(or: &mut Vec<Value>, k: &AnyKey, s: &Value) {
+    let info = alg_by_keyalg(k.algorithm());
+    let c = info.class;
+    let secret = s["secret"].as_str().map(|h| hex::decode(h).unwrap());
+    let public = s["public"].as_str().map(|h| hex::decode(h).unwrap());
+    // secret bytes round trip
+    if let Some(sk) = &secret {
+        match import_secret(info.alg, sk) {
+            Ok(k2) => { if summary(&k2) != *s { fail(or, format!("bytes_roundtrip:secret:different-key:{}", c.s()), json!({"alg": info.name})); } }
+            Err(e) => fail(or, format!("bytes_roundtrip:secret:ok->err:{}:{}", e, c.s()), json!({"alg": info.name})),
+        }
+    }
+    // public bytes round trip
+    if let Some(pk) = &public {
+        match import_public(info.alg, pk) {
+            Ok(k3) => {
+                let s3 = summary(&k3);
+                if s3["public"] != s["public"] || s3["jwk_public"] != s["jwk_public"] || s3["secret"].as_str().is_some() {
+                    fail(or, format!("bytes_roundtrip:public:different-key:{}", c.s()), json!({"alg": info.name}));
+                }
+            }
+            Err(e) => fail(or, format!("bytes_roundtrip:public:ok->err:{}:{}", e, c.s()), json!({"alg": info.name})),
+        }
+    } else if c != Class::Sym {
+        fail(or, format!("export:public:ok->err:{}", c.s()), json!({"alg": info.name, "got": s["public"]}));
+    }
+    // JWK round trips
+    match s["jwk_secret"].as_str() {
+        Some(t) => match import_jwk(t) {
+            Ok(k4) => { if summary(&k4) != *s { fail(or, format!("jwk_roundtrip:secret:different-key:{}", c.s()), json!({"alg": info.name, "jwk": t})); } }
+            Err(e) => fail(or, format!("jwk_roundtrip:secret:ok->err:{}:{}", e, if c == Class::Sym { "oct" } else { c.s() }), json!({"alg": info.name})),
+        },
+        None => fail(or, format!("export:jwk_secret:ok->err:{}", c.s()), json!({"alg": info.name, "got": s["jwk_secret"]})),
+    }
+    if c == Class::Sym {
+        if s["jwk_public"].as_str().is_some() { fail(or, "public_export:symmetric-key-exported".into(), json!({"alg": info.name, "jwk": s["jwk_public"]})); }
+    } else {
+        match s["jwk_public"].as_str() {
+            Some(t) => {
+                match import_jwk(t) {
+                    Ok(k5) => {
+                        let s5 = summary(&k5);
+                        if s5["public"] != s["public"] || s5["jwk_public"] != s["jwk_public"] || s5["secret"].as_str().is_some() {
+                            fail(or, format!("jwk_roundtrip:public:different-key:{}", c.s()), json!({"alg": info.name, "jwk": t}));
+                        }
+                    }
+                    Err(e) => fail(or, format!("jwk_roundtrip:public:ok->err:{}:{}", e, c.s()), json!({"alg": info.name})),
+                }
+            }
+            None => fail(or, format!("export:jwk_public:ok->err:{}", c.s()), json!({"alg": info.name, "got": s["jwk_public"]})),
+        }
+    }
+    // public exports never contain private material
+    let mut pubs: Vec<&Value> = vec![&s["jwk_public"]];
+    if s.get("g1").is_some() { pubs.push(&s["g1"]["jwk_public"]); pubs.push(&s["g2"]["jwk_public"]); }
+    for p in pubs {
+        if let Some(t) = p.as_str() {
+            let v: Value = serde_json::from_str(t).unwrap_or(Value::Null);
+            let leak_member = v.get("d").is_some() || v.get("k").is_some();
+            let leak_text = secret.as_ref().map_or(false, |sk| !sk.is_empty() && t.contains(&b64e(sk)));
+            if !v.is_object() { fail(or, format!("public_export:not-json:{}", c.s()), json!({"jwk": t})); }
+            if leak_member || leak_text { fail(or, format!("public_export:secret-leaked:{}", c.s()), json!({"jwk": t})); }
+        }
+    }
+    if let (Some(pk), Some(sk)) = (&public, &secret) {
+        if sk.len() >= 16 && pk.windows(sk.len()).any(|w| w == &sk[..]) { fail(or, format!("public_export:secret-in-public-bytes:{}", c.s()), json!(null)); }
+    }
+    // thumbprints
+    let reference = if c == Class::Sym { &s["jwk_secret"] } else { &s["jwk_public"] };
+    check_thumb(or, k, None, reference, &s["thumb_pre"], c, "default");
+    if s.get("g1").is_some() {
+        check_thumb(or, k, Some(KeyAlg::Bls12_381(BlsCurves::G1)), &s["g1"]["jwk_public"], &s["g1"]["thumb_pre"], c, "g1");
+        check_thumb(or, k, Some(KeyAlg::Bls12_381(BlsCurves::G2)), &s["g2"]["jwk_public"], &s["g2"]["thumb_pre"], c, "g2");
+    }
+}
+
+const ORDER_P256: &str = "ffffffff00000000ffffffffffffffffbce6faada7179e84f3b9cac2fc632551";
+const ORDER_P384: &str = "ffffffffffffffffffffffffffffffffffffffffffffffffc7634d81f4372ddf581a0db248b0a77aecec196accc52973";
+const ORDER_K256: &str = "fffffffffffffffffffffffffffffffebaaedce6af48a03bbfd25e8cd0364141";
+const ORDER_BLS: &str = "73eda753299d7d483339d80809a1d80553bda402fffe5bfeffffffff00000001";
+
+/// is `b` (right length assumed) a valid secret for the algorithm according to the curve's specification
+fn secret_in_range(info: &AlgInfo, b: &[u8]) -> bool {
+    let zero = b.iter().all(|&x| x == 0);
+    let below = |h: &str| b < &hex::decode(h).unwrap()[..];
+    match info.name {
+        "p256" => !zero && below(ORDER_P256),
+        "p384" => !zero && below(ORDER_P384),
+        "k256" => !zero && below(ORDER_K256),
+        "bls12381g1" | "bls12381g2" | "bls12381g1g2" => below(ORDER_BLS),
+        _ => true,
+    }
+}
+
+// ---------------------------------------------------------------------------------------------------------------------
+// executor
+
+fn text_of(case: &Value) -> String {
+    String::from_utf8(hex::decode(case["hex"].as_str().unwrap_or("")).unwrap_or_default()).unwrap_or_default()
+}
+
+fn bump(feat: &mut Map<String, Value>, k: String) {
+    let n = feat.get(&k).and_then(|v| v.as_u64()).unwrap_or(0);
+    feat.insert(k, json!(n + 1));
+}
+
+fn parts_json(p: &JwkParts<'_>) -> Value {
+    let o = |s: Option<&str>| s.map_or(Value::Null, |s| json!(hex::encode(s.as_bytes())));
+    let ops = p.key_ops.map(|ops| { let mut bits = 0usize; for op in &ops { bits |= op as usize; } bits });
+    json!({"parts": {"kty": hex::encode(p.kty.as_bytes()), "kid": o(p.kid.as_opt_str()), "alg": o(p.alg.as_opt_str()),
+        "crv": o(p.crv.as_opt_str()), "x": o(p.x.as_opt_str()), "y": o(p.y.as_opt_str()), "d": o(p.d.as_opt_str()),
+        "k": o(p.k.as_opt_str()), "key_ops": ops}})
+}
+
+pub fn exec(case: &Value, _tag: &str) -> Value {
+    let kind = case["kind"].as_str().unwrap_or("");
+    let class = case["class"].as_str().unwrap_or("").to_string();
+    let expect = case["expect"].as_str();
+    let mut or: Vec<Value> = vec![];
+    let mut feat = Map::new();
+    bump(&mut feat, format!("kind:{}", kind));
+    if !class.is_empty() { bump(&mut feat, format!("class:{}", class.split(':').next().unwrap_or(""))); }
+    let out: Value = match kind {
+        "c14:b64" => {
+            let text = text_of(case);
+            let n = case["n"].as_u64().unwrap_or(0) as usize;
+            let r = catch_unwind(AssertUnwindSafe(|| {
+                let mut p = JwkParts::try_from_str("{\"kty\":\"a\"}").unwrap();
+                p.x = text.as_str().into();
+                let mut buf = vec![0u8; n];
+                p.x.decode_base64(&mut buf).map(|len| (len, buf))
+            }));
+            let reference = if text.len() > (4 * n + 2) / 3 { None } else { b64d(text.as_bytes()) };
+            match r {
+                Ok(Ok((len, buf))) => {
+                    if len > n { fail(&mut or, "b64:length-beyond-buffer".into(), json!({"len": len, "n": n})); }
+                    let got = buf[..len.min(n)].to_vec();
+                    if reference.as_ref() != Some(&got) { fail(&mut or, "b64:err->ok:non-canonical-or-wrong".into(), json!({"got": hex::encode(&got), "want": reference.map(hex::encode)})); }
+                    else if b64e(&got) != text { fail(&mut or, "b64:second-spelling-accepted".into(), json!({"text": text})); }
+                    if buf[len.min(n)..].iter().any(|&x| x != 0) { fail(&mut or, "b64:stray-bytes-after-output".into(), json!(null)); }
+                    bump(&mut feat, "b64:ok".into());
+                    json!({"ok": hex::encode(got)})
+                }
+                Ok(Err(e)) => {
+                    if reference.is_some() { fail(&mut or, format!("b64:ok->err:{}", ek(&e)), json!({"text": text, "n": n})); }
+                    bump(&mut feat, "b64:err".into());
+                    jerr(ek(&e))
+                }
+                Err(_) => { fail(&mut or, format!("b64:err->panic:{}", class), json!({"text": text, "n": n})); jerr("Panic") }
+            }
+        }
+        "c14:parse" => {
+            let text = text_of(case);
+            let r = catch_unwind(AssertUnwindSafe(|| JwkParts::try_from_str(&text).map(|p| parts_json(&p)).map_err(|e| ek(&e))));
+            let out = match r { Ok(Ok(v)) => v, Ok(Err(e)) => jerr(e), Err(_) => jerr("Panic") };
+            let ok = out.get("parts").is_some();
+            bump(&mut feat, format!("parse:{}", if ok { "ok" } else { "err" }));
+            if out["err"] == "Panic" { fail(&mut or, format!("parse:err->panic:{}", class), json!({"text": text})); }
+            match expect {
+                Some("ok") if !ok => fail(&mut or, format!("parse:ok->err:{}:{}", out["err"].as_str().unwrap_or(""), class), json!({"text": text})),
+                Some("err") if ok => fail(&mut or, format!("parse:err->ok:{}", class), json!({"text": text})),
+                _ => {}
+            }
+            // an accepted, well-formed JWK must yield exactly the member values (last occurrence)
+            if ok && expect == Some("ok") {
+                if let Ok(Value::Object(o)) = serde_json::from_str::<Value>(&text) {
+                    for f in ["kty", "kid", "alg", "crv", "x", "y", "d", "k"] {
+                        let want = o.get(f).and_then(|v| v.as_str()).map(|s| hex::encode(s.as_bytes()));
+                        let got = out["parts"][f].as_str().map(|s| s.to_string());
+                        if want != got { fail(&mut or, format!("parse:wrong-member-value:{}:{}", f, class), json!({"text": text})); }
+                    }
+                }
+            }
+            out
+        }
+        "c14:jwk" => {
+            let text = text_of(case);
+            match import_jwk(&text) {
+                Ok(k) => {
+                    let s = summary(&k);
+                    let c = alg_by_keyalg(k.algorithm()).class;
+                    bump(&mut feat, format!("jwk:ok:{}", c.s()));
+                    if expect == Some("err") { fail(&mut or, format!("from_jwk:err->ok:{}:{}", c.s(), class), json!({"text": text})); }
+                    // never a key different from the one encoded
+                    if let Some(w) = case["want_secret"].as_str() { if s["secret"].as_str() != Some(w) { fail(&mut or, format!("from_jwk:different-secret:{}:{}", c.s(), class), json!({"text": text})); } }
+                    if case.get("want_secret").map_or(false, |v| v.is_null()) && s["secret"].as_str().is_some() { fail(&mut or, format!("from_jwk:secret-from-nowhere:{}:{}", c.s(), class), json!({"text": text})); }
+                    if let Some(w) = case["want_public"].as_str() { if s["public"].as_str() != Some(w) { fail(&mut or, format!("from_jwk:different-public:{}:{}", c.s(), class), json!({"text": text})); } }
+                    check_key(&mut or, &k, &s);
+                    s
+                }
+                Err(e) => {
+                    bump(&mut feat, format!("jwk:err:{}", e));
+                    let ac = case["alg_class"].as_str().unwrap_or("");
+                    if e == "Panic" { fail(&mut or, format!("from_jwk:err->panic:{}:{}", ac, class), json!({"text": text})); }
+                    else if expect == Some("ok") { fail(&mut or, format!("from_jwk:ok->err:{}:{}:{}", e, ac, class), json!({"text": text})); }
+                    jerr(e)
+                }
+            }
+        }
+        "c14:secret" | "c14:public" => {
+            let info = match alg_by_name(case["alg"].as_str().unwrap_or("")) { Some(i) => i, None => return json!({"out": jerr("unknown alg")}) };
+            let b = hex::decode(case["bytes"].as_str().unwrap_or("")).unwrap_or_default();
+            let secret = kind == "c14:secret";
+            let op = if secret { "from_secret_bytes" } else { "from_public_bytes" };
+            let r = if secret { import_secret(info.alg, &b) } else { import_public(info.alg, &b) };
+            // what the input language allows
+            let lens: Vec<usize> = if secret { vec![info.sk] } else if info.class == Class::Ec { vec![info.pk, 2 * info.pk - 1] } else { vec![info.pk] };
+            let len_ok = (secret || info.class != Class::Sym) && lens.contains(&b.len());
+            let input_class = if !secret && info.class == Class::Sym { "no-public-form" } else if !len_ok { "wrong-length" } else if secret && !secret_in_range(&info, &b) { "out-of-range" } else { "right-length" };
+            bump(&mut feat, format!("{}:{}:{}", op, info.class.s(), input_class));
+            match r {
+                Ok(k) => {
+                    let s = summary(&k);
+                    bump(&mut feat, format!("{}:ok", op));
+                    if input_class != "right-length" { fail(&mut or, format!("{}:err->ok:{}:{}", op, info.class.s(), input_class), json!({"alg": info.name, "bytes": hex::encode(&b)})); }
+                    if k.algorithm() != info.alg { fail(&mut or, format!("{}:wrong-algorithm:{}", op, info.class.s()), json!({"alg": info.name})); }
+                    if secret {
+                        if s["secret"].as_str() != Some(hex::encode(&b).as_str()) { fail(&mut or, format!("{}:different-key:{}", op, info.class.s()), json!({"alg": info.name, "bytes": hex::encode(&b)})); }
+                    } else {
+                        if s["secret"].as_str().is_some() { fail(&mut or, format!("{}:secret-from-nowhere:{}", op, info.class.s()), json!({"alg": info.name})); }
+                        let p = s["public"].as_str().map(|h| hex::decode(h).unwrap()).unwrap_or_default();
+                        let same = if info.class == Class::Ec { p.len() == info.pk && b.len() >= info.pk && p[1..] == b[1..info.pk] && (b[0] == 4 || b[0] == 5 || b[0] == p[0]) && (b[0] != 4 || (b[b.len() - 1] & 1) + 2 == p[0]) } else { p == b };
+                        if !same { fail(&mut or, format!("{}:different-key:{}", op, info.class.s()), json!({"alg": info.name, "bytes": hex::encode(&b), "public": hex::encode(&p)})); }
+                    }
+                    check_key(&mut or, &k, &s);
+                    s
+                }
+                Err(e) => {
+                    bump(&mut feat, format!("{}:err:{}", op, e));
+                    if e == "Panic" { fail(&mut or, format!("{}:err->panic:{}:{}", op, info.class.s(), input_class), json!({"alg": info.name, "len": b.len()})); }
+                    else if secret && input_class == "right-length" { fail(&mut or, format!("{}:ok->err:{}:{}", op, e, info.class.s()), json!({"alg": info.name, "bytes": hex::encode(&b)})); }
+                    else if !secret && expect == Some("ok") { fail(&mut or, format!("{}:ok->err:{}:{}:{}", op, e, info.class.s(), class), json!({"alg": info.name, "bytes": hex::encode(&b)})); }
+                    if !secret && expect == Some("err") { /* as expected */ }
+                    jerr(e)
+                }
+            }
+        }
+        _ => jerr("unknown kind"),
+    };
+    json!({"out": out, "oracle": or, "feat": feat})
+}
+
+// ---------------------------------------------------------------------------------------------------------------------
+// generators
+
+/// a JSON value for an unknown member, by type
+const EXTRA_VALUES: &[(&str, &str, &str)] = &[
+    ("str", "\"bar\"", "str"), ("str-empty", "\"\"", "str"), ("str-braces", "\"a,b}c]d:e\"", "str"),
+    ("num", "17", "num"), ("num-neg-frac", "-1.5e+3", "num"), ("num-zero", "0", "num"),
+    ("bool-true", "true", "bool"), ("bool-false", "false", "bool"), ("null", "null", "null"),
+    ("arr", "[1,\"a\",null]", "arr"), ("arr-empty", "[]", "arr"), ("arr-strs", "[\"MIIB\",\"MIIC\"]", "strarr"),
+    ("arr-nested", "[[1,[2]],{\"a\":[]}]", "arr"),
+    ("obj", "{\"a\":1,\"b\":\"c\"}", "obj"), ("obj-empty", "{}", "obj"), ("obj-nested", "{\"a\":{\"b\":{\"c\":[true]}}}", "obj"),
+];
+
+const EXTRA_NAMES: &[&str] = &["ext", "x5c", "foo", "x5t#S256", "", "KTY", "dd", "use2", "n"];
+
+#[derive(Clone)]
+struct Member { key: String, raw: String, t: &'static str }   // raw = JSON text of the value
+
+fn mstr(key: &str, v: &str) -> Member { Member { key: key.into(), raw: format!("\"{}\"", v), t: "str" } }
+
+fn render(ms: &[Member], r: &mut Rng, ws: bool) -> String {
+    let mut w = |r: &mut Rng| -> String { if !ws { return String::new(); } let n = r.below(3); (0..n).map(|_| *r.pick(&[' ', '\n', '\t', '\r'])).collect() };
+    let mut s = w(r);
+    s.push('{');
+    for (i, m) in ms.iter().enumerate() {
+        if i > 0 { s.push_str(&w(r)); s.push(','); }
+        s.push_str(&w(r));
+        s.push_str(&format!("\"{}\"", m.key));
+        s.push_str(&w(r));
+        s.push(':');
+        s.push_str(&w(r));
+        s.push_str(&m.raw);
+    }
+    s.push_str(&w(r));
+    s.push('}');
+    s.push_str(&w(r));
+    s
+}
+
+fn members_json(ms: &[Member]) -> Option<Value> {
+    let mut out = vec![];
+    for m in ms {
+        if m.key.contains('\\') || m.key.contains('"') { return None; }
+        let v = match m.t {
+            "str" => { let inner = &m.raw[1..m.raw.len() - 1]; if inner.contains('\\') { return None; } json!({"t": "str", "v": hex::encode(inner.as_bytes())}) }
+            "strarr" => { let a: Vec<String> = serde_json::from_str(&m.raw).ok()?; if a.iter().any(|s| s.contains('\\') || s.contains('"')) { return None; } json!({"t": "strarr", "v": a.iter().map(|s| hex::encode(s.as_bytes())).collect::<Vec<_>>()}) }
+            t => json!({"t": t}),
+        };
+        out.push(json!([hex::encode(m.key.as_bytes()), v]));
+    }
+    Some(Value::Array(out))
+}
+
+/// table of third-party curve results the model may need for this member list / byte string
+fn hints_bytes(prim: &mut Map<String, Value>, alg_name: &str, secret: Option<&[u8]>, public: Option<&[u8]>) {
+    let put_pub = |prim: &mut Map<String, Value>, name: &str, d: &[u8]| {
+        let info = alg_by_name(name).unwrap();
+        let v = import_secret(info.alg, d).ok().and_then(|k| k.to_public_bytes().ok().map(|b| hex::encode(&b[..])));
+        prim.insert(format!("pub:{}:{}", name, hex::encode(d)), v.map_or(Value::Null, Value::String));
+    };
+    let put_dec = |prim: &mut Map<String, Value>, name: &str, x: &[u8]| {
+        let info = alg_by_name(name).unwrap();
+        let v = import_public(info.alg, x).ok().and_then(|k| k.to_public_bytes().ok().map(|b| hex::encode(&b[..])));
+        prim.insert(format!("dec:{}:{}", name, hex::encode(x)), v.map_or(Value::Null, Value::String));
+    };
+    if let Some(d) = secret {
+        if d.len() == 32 {
+            match alg_name {
+                "ed25519" | "x25519" | "bls12381g1" | "bls12381g2" => put_pub(prim, alg_name, d),
+                "bls12381g1g2" => { put_pub(prim, "bls12381g1", d); put_pub(prim, "bls12381g2", d); }
+                _ => {}
+            }
+        }
+    }
+    if let Some(x) = public {
+        match (alg_name, x.len()) {
+            ("ed25519", 32) | ("bls12381g1", 48) | ("bls12381g2", 96) => put_dec(prim, alg_name, x),
+            ("bls12381g1g2", 144) => { put_dec(prim, "bls12381g1", &x[..48]); put_dec(prim, "bls12381g2", &x[48..]); }
+            _ => {}
+        }
+    }
+}
+
+fn hints_members(ms: &[Member]) -> Value {
+    let mut prim = Map::new();
+    let val = |k: &str| -> Vec<String> { ms.iter().filter(|m| m.key == k && m.t == "str").map(|m| m.raw[1..m.raw.len() - 1].to_string()).collect() };
+    for crv in val("crv") {
+        if let Some(info) = algs().into_iter().find(|a| a.crv == crv && a.class != Class::Ec) {
+            for d in val("d") { if let Some(b) = b64d(d.as_bytes()) { hints_bytes(&mut prim, info.name, Some(&b), None); } }
+            for x in val("x") { if let Some(b) = b64d(x.as_bytes()) { hints_bytes(&mut prim, info.name, None, Some(&b)); } }
+        }
+    }
+    Value::Object(prim)
+}
+
+struct Out { cases: Vec<Value> }
+
+impl Out {
+    fn push(&mut self, mut c: Value) { c["id"] = json!(self.cases.len()); self.cases.push(c); }
+    fn text_case(&mut self, kind: &str, text: &str, class: &str, expect: Option<&str>, extra: Value) {
+        let mut c = json!({"kind": kind, "hex": hex::encode(text.as_bytes()), "text": text, "class": class});
+        if let Some(e) = expect { c["expect"] = json!(e); }
+        if let Value::Object(o) = extra { for (k, v) in o { c[k] = v; } }
+        self.push(c);
+    }
+    /// a JWK given as members: one import case and one parse case (with the token-level view when expressible)
+    fn jwk(&mut self, r: &mut Rng, ms: &[Member], ws: bool, class: &str, expect: Option<&str>, info: &AlgInfo, want: Option<(Option<&[u8]>, Option<&[u8]>)>, parse_too: bool) {
+        let text = render(ms, r, ws);
+        let mut extra = json!({"prim": hints_members(ms), "alg_class": info.class.s(), "alg": info.name});
+        if let Some((sk, pk)) = want {
+            extra["want_secret"] = sk.map_or(Value::Null, |b| json!(hex::encode(b)));
+            if let Some(pk) = pk { extra["want_public"] = json!(hex::encode(pk)); }
+        }
+        // D15 is a property of the dispatch, not of the text: symmetric keys are expected to import as well
+        self.text_case("c14:jwk", &text, class, expect, extra);
+        if parse_too {
+            let mut e2 = json!({});
+            if let Some(m) = members_json(ms) { e2["members"] = m; }
+            // at parse level a JWK is acceptable whenever it is a well-formed object with string-valued known members
+            let pexp = match expect { Some("ok") => Some("ok"), _ => None };
+            self.text_case("c14:parse", &text, class, pexp, e2);
+        }
+    }
+}
+
+fn random_secret(r: &mut Rng, info: &AlgInfo) -> Vec<u8> {
+    loop {
+        let mut b = r.bytes(info.sk);
+        if info.class == Class::Bls { b[0] %= 0x73; }
+        if secret_in_range(info, &b) { return b; }
+    }
+}
+
+fn members_of_jwk(text: &str) -> Vec<Member> {
+    // the encoder writes flat objects with string values and no escapes: split by hand to keep the order
+    let v: Value = serde_json::from_str(text).unwrap();
+    let o = v.as_object().unwrap();
+    let mut ms: Vec<(usize, Member)> = o.iter().map(|(k, v)| (text.find(&format!("\"{}\":", k)).unwrap(), mstr(k, v.as_str().unwrap()))).collect();
+    ms.sort_by_key(|(p, _)| *p);
+    ms.into_iter().map(|(_, m)| m).collect()
+}
+
+fn shuffle<T>(r: &mut Rng, v: &mut Vec<T>) { for i in (1..v.len()).rev() { let j = r.below(i + 1); v.swap(i, j); } }
+
+fn permutations(n: usize) -> Vec<Vec<usize>> {
+    if n == 0 { return vec![vec![]]; }
+    let mut out = vec![];
+    for p in permutations(n - 1) { for i in 0..n { let mut q = p.clone(); q.insert(i, n - 1); out.push(q); } }
+    out
+}
+
+fn set_member(ms: &[Member], key: &str, v: &str) -> Vec<Member> { ms.iter().map(|m| if m.key == key { mstr(key, v) } else { m.clone() }).collect() }
+fn get_member(ms: &[Member], key: &str) -> Option<String> { ms.iter().find(|m| m.key == key).map(|m| m.raw[1..m.raw.len() - 1].to_string()) }
+fn drop_member(ms: &[Member], key: &str) -> Vec<Member> { ms.iter().filter(|m| m.key != key).cloned().collect() }
+
+fn gen_jwk_for_alg(o: &mut Out, r: &mut Rng, info: &AlgInfo, thorough: bool) {
+    let sk = random_secret(r, info);
+    let key = match import_secret(info.alg, &sk) { Ok(k) => k, Err(_) => return };
+    let s = summary(&key);
+    let pk = s["public"].as_str().map(|h| hex::decode(h).unwrap());
+    let sec_ms = members_of_jwk(s["jwk_secret"].as_str().unwrap());
+    let want_s: Option<(Option<&[u8]>, Option<&[u8]>)> = Some((Some(&sk), pk.as_deref()));
+    let want_p: Option<(Option<&[u8]>, Option<&[u8]>)> = Some((None, pk.as_deref()));
+    // 1. canonical forms
+    o.jwk(r, &sec_ms, false, "canonical:secret", Some("ok"), info, want_s, true);
+    let pub_ms = if info.class == Class::Sym { None } else { Some(members_of_jwk(s["jwk_public"].as_str().unwrap())) };
+    if let Some(pm) = &pub_ms { o.jwk(r, pm, false, "canonical:public", Some("ok"), info, want_p, true); }
+    // 2. member order: every permutation (<= 5 members)
+    let perms = permutations(sec_ms.len());
+    let take = if thorough { perms.len() } else { 24.min(perms.len()) };
+    let mut idx: Vec<usize> = (0..perms.len()).collect();
+    shuffle(r, &mut idx);
+    for &pi in idx.iter().take(take) {
+        let ms: Vec<Member> = perms[pi].iter().map(|&i| sec_ms[i].clone()).collect();
+        o.jwk(r, &ms, false, "perm", Some("ok"), info, want_s, true);
+    }
+    // 3. whitespace
+    for _ in 0..(if thorough { 6 } else { 2 }) {
+        let mut ms = sec_ms.clone();
+        shuffle(r, &mut ms);
+        o.jwk(r, &ms, true, "whitespace", Some("ok"), info, want_s, true);
+    }
+    // 4. unknown members of every JSON type in every position
+    for (vi, (vname, raw, t)) in EXTRA_VALUES.iter().enumerate() {
+        let positions: Vec<usize> = if thorough || vi < 4 { (0..=sec_ms.len()).collect() } else { vec![r.below(sec_ms.len() + 1)] };
+        for pos in positions {
+            let mut ms = sec_ms.clone();
+            let name = if vi < EXTRA_NAMES.len() && pos == 0 { EXTRA_NAMES[vi] } else { *r.pick(EXTRA_NAMES) };
+            ms.insert(pos, Member { key: name.into(), raw: raw.to_string(), t });
+            let ws = r.chance(1, 4);
+            o.jwk(r, &ms, ws, &format!("unknown-member:{}", vname), Some("ok"), info, want_s, true);
+        }
+    }
+    // 5. members the parser knows but the import ignores
+    for (k, raw, t) in [("kid", "\"key-1\"", "str"), ("alg", "\"EdDSA\"", "str"), ("use", "\"sig\"", "str"), ("use", "\"enc\"", "str"), ("use", "\"other\"", "str"),
+        ("key_ops", "[\"sign\",\"verify\"]", "strarr"), ("key_ops", "[]", "strarr"), ("key_ops", "[\"sign\",\"bogus\",\"deriveBits\"]", "strarr")] {
+        let mut ms = sec_ms.clone();
+        let pos = r.below(ms.len() + 1);
+        if ms.iter().any(|m| m.key == k) { continue; }
+        ms.insert(pos, Member { key: k.into(), raw: raw.into(), t });
+        o.jwk(r, &ms, false, &format!("known-extra:{}", k), Some("ok"), info, want_s, true);
+    }
+    {   // use + key_ops in both orders (the only order-dependent pair; not observable through the key)
+        for flip in [false, true] {
+            let mut ms = sec_ms.clone();
+            let (a, b) = (Member { key: "use".into(), raw: "\"sig\"".into(), t: "str" }, Member { key: "key_ops".into(), raw: "[\"encrypt\"]".into(), t: "strarr" });
+            if flip { ms.push(b); ms.push(a); } else { ms.push(a); ms.push(b); }
+            o.jwk(r, &ms, false, "known-extra:use+key_ops", Some("ok"), info, want_s, true);
+        }
+        // wrong value types / duplicates in key_ops: rejected by the parser; the property does not say
+        for raw in ["[\"sign\",\"sign\"]", "[1]", "\"sign\"", "null"] {
+            let mut ms = sec_ms.clone();
+            ms.push(Member { key: "key_ops".into(), raw: raw.into(), t: if raw == "[\"sign\",\"sign\"]" { "strarr" } else if raw.starts_with('[') { "arr" } else if raw == "null" { "null" } else { "str" } });
+            o.jwk(r, &ms, false, "known-extra:bad-key_ops", None, info, None, true);
+        }
+    }
+    // the field that carries base64 key material to attack, per class
+    let b64_fields: Vec<&str> = match info.class { Class::Sym => vec!["k"], Class::Ec => vec!["x", "y", "d"], _ => vec!["x", "d"] };
+    for f in &b64_fields {
+        let v = get_member(&sec_ms, f).unwrap();
+        let bytes = b64d(v.as_bytes()).unwrap();
+        let mut bad: Vec<(&str, String)> = vec![
+            ("padded", format!("{}=", v)), ("padded2", format!("{}==", v)),
+            ("non-url-safe", if v.contains('-') || v.contains('_') { v.replace('-', "+").replace('_', "/") } else { format!("+{}", &v[1..]) }),
+            ("over-long:1char", format!("{}A", v)), ("over-long:4chars", format!("{}AAAA", v)), ("over-long:2x", format!("{}{}", v, v)),
+            ("short:1byte", b64e(&bytes[..bytes.len() - 1])), ("short:half", b64e(&bytes[..bytes.len() / 2])), ("empty", String::new()),
+            ("dangling-char", v[..(if v.len() % 4 >= 1 { v.len() - (v.len() % 4) + 1 } else { v.len() - 3 })].to_string()),
+            ("inner-space", format!("{} {}", &v[..4], &v[4..])), ("inner-newline", format!("{}\\n{}", &v[..4], &v[4..])),
+            ("non-ascii", format!("{}é{}", &v[..3], &v[5..])), ("standard-padding-alphabet", format!("{}.", &v[..v.len() - 1])),
+        ];
+        if v.len() % 4 != 0 {
+            // same bytes, unused trailing bits set
+            let last = B64.iter().position(|&a| a == v.as_bytes()[v.len() - 1]).unwrap();
+            bad.push(("trailing-bits", format!("{}{}", &v[..v.len() - 1], B64[last | 1] as char)));
+        }
+        for (name, nv) in bad {
+            if nv == v { continue; }
+            let ms = set_member(&sec_ms, f, &nv);
+            o.jwk(r, &ms, false, &format!("bad-base64:{}:{}", f, name), Some("err"), info, None, false);
+        }
+    }
+    if info.class != Class::Sym {
+        let other_sk = random_secret(r, info);
+        let other = summary(&import_secret(info.alg, &other_sk).unwrap());
+        let oms = members_of_jwk(other["jwk_secret"].as_str().unwrap());
+        // 7. mismatched d / x / y
+        let ms = set_member(&sec_ms, "d", &get_member(&oms, "d").unwrap());
+        o.jwk(r, &ms, false, "mismatch:d-of-other-key", Some("err"), info, None, false);
+        let mut ms = set_member(&sec_ms, "x", &get_member(&oms, "x").unwrap());
+        if info.class == Class::Ec { ms = set_member(&ms, "y", &get_member(&oms, "y").unwrap()); }
+        o.jwk(r, &ms, false, "mismatch:public-of-other-key", Some("err"), info, None, false);
+        if info.class == Class::Ec {
+            // x of this key with y of the other: not on the curve
+            let ms = set_member(&sec_ms, "y", &get_member(&oms, "y").unwrap());
+            o.jwk(r, &ms, false, "off-curve:y-of-other-key", Some("err"), info, None, false);
+            o.jwk(r, &drop_member(&ms, "d"), false, "off-curve:y-of-other-key:public", Some("err"), info, None, false);
+            for _ in 0..(if thorough { 8 } else { 2 }) {
+                let ms = set_member(&set_member(&pub_ms.clone().unwrap(), "x", &b64e(&r.bytes(info.sk))), "y", &b64e(&r.bytes(info.sk)));
+                o.jwk(r, &ms, false, "off-curve:random-xy", Some("err"), info, None, false);
+            }
+            let mut y = b64d(get_member(&sec_ms, "y").unwrap().as_bytes()).unwrap();
+            let l = y.len();
+            y[l - 1] ^= 1;
+            o.jwk(r, &set_member(&pub_ms.clone().unwrap(), "y", &b64e(&y)), false, "off-curve:y-bit-flipped", Some("err"), info, None, false);
+            // coordinates not below the field prime
+            o.jwk(r, &set_member(&pub_ms.clone().unwrap(), "x", &b64e(&vec![0xffu8; info.sk])), false, "off-curve:x-not-reduced", Some("err"), info, None, false);
+            // zero / out-of-range scalar with a valid point
+            o.jwk(r, &set_member(&sec_ms, "d", &b64e(&vec![0u8; info.sk])), false, "mismatch:d-zero", Some("err"), info, None, false);
+            o.jwk(r, &set_member(&sec_ms, "d", &b64e(&vec![0xffu8; info.sk])), false, "mismatch:d-above-order", Some("err"), info, None, false);
+        } else {
+            // random encodings as public key (no expectation for Ed25519: about half of all strings are points)
+            for _ in 0..(if thorough { 8 } else { 2 }) {
+                let x = r.bytes(info.pk);
+                let exp = if info.name == "x25519" { Some("ok") } else if info.class == Class::Bls { Some("err") } else { None };
+                let pm = set_member(&pub_ms.clone().unwrap(), "x", &b64e(&x));
+                o.jwk(r, &pm, false, "random-public", exp, info, if exp == Some("ok") { Some((None, Some(&x))) } else { None }, false);
+            }
+            let mut x = pk.clone().unwrap();
+            x[5] ^= 0x10;
+            o.jwk(r, &set_member(&sec_ms, "x", &b64e(&x)), false, "mismatch:x-bit-flipped", Some("err"), info, None, false);
+        }
+        // 9. missing members
+        for f in ["kty", "crv", "x", "y"] {
+            if get_member(&sec_ms, f).is_none() { continue; }
+            o.jwk(r, &drop_member(&sec_ms, f), false, &format!("missing:{}", f), Some("err"), info, None, true);
+        }
+        // 10. wrong kty / crv
+        for kty in ["oct", "RSA", "okp", "", if info.class == Class::Ec { "OKP" } else { "EC" }] {
+            let exp = if info.class == Class::Bls && kty == "EC" { Some("ok") } else { Some("err") };
+            o.jwk(r, &set_member(&sec_ms, "kty", kty), false, &format!("wrong-kty:{}", kty), exp, info, if exp == Some("ok") { want_s } else { None }, false);
+        }
+        for crv in ["P-256", "secp256k1", "P-384", "Ed25519", "X25519", "BLS12381_G1", "BLS12381_G2", "BLS12381_G1G2", "P-521", "", "ed25519"] {
+            if crv == info.crv { continue; }
+            // an X25519 public key reinterpreted is not this key: no claim about acceptance when d is absent
+            o.jwk(r, &set_member(&sec_ms, "crv", crv), false, &format!("wrong-crv:{}", crv), Some("err"), info, None, false);
+        }
+    } else {
+        for f in ["kty", "k", "alg"] { o.jwk(r, &drop_member(&sec_ms, f), false, &format!("missing:{}", f), if f == "alg" { None } else { Some("err") }, info, None, true); }
+    }
+    // 11. duplicate members (last one wins in the parser; the property does not say)
+    {
+        let mut ms = sec_ms.clone();
+        let f = b64_fields[0];
+        ms.insert(0, mstr(f, "AAAA"));
+        o.jwk(r, &ms, false, "duplicate-member:first-bad", None, info, None, true);
+        let mut ms = sec_ms.clone();
+        ms.push(mstr(f, "AAAA"));
+        o.jwk(r, &ms, false, "duplicate-member:last-bad", None, info, None, true);
+    }
+    // 12. JSON escapes in names / values (valid JSON; serde-json-core does not unescape)
+    {
+        let text = render(&sec_ms, r, false);
+        o.text_case("c14:jwk", &text.replacen("\"kty\"", "\"k\\u0074y\"", 1), "escaped:member-name", Some("ok"), json!({"prim": hints_members(&sec_ms), "alg_class": info.class.s(), "alg": info.name}));
+        let ktyv = get_member(&sec_ms, "kty").unwrap();
+        let esc = format!("\\u00{:02x}{}", ktyv.as_bytes()[0], &ktyv[1..]);
+        o.text_case("c14:jwk", &text.replacen(&format!("\"kty\":\"{}\"", ktyv), &format!("\"kty\":\"{}\"", esc), 1), "escaped:member-value", Some("ok"), json!({"prim": hints_members(&sec_ms), "alg_class": info.class.s(), "alg": info.name}));
+        // an unknown member whose string value contains an escaped quote
+        let mut ms = sec_ms.clone();
+        ms.insert(1, Member { key: "note".into(), raw: "\"say \\\"hi\\\" \\\\\"".into(), t: "str" });
+        o.jwk(r, &ms, false, "unknown-member:str-escaped-quote", Some("ok"), info, want_s, true);
+    }
+    // 13. not JSON at all, built from the valid text
+    {
+        let text = render(&sec_ms, r, false);
+        let body = &text[1..text.len() - 1];
+        let extra = || json!({"prim": hints_members(&sec_ms), "alg_class": info.class.s(), "alg": info.name});
+        for (name, t) in [
+            ("name-without-value-last", format!("{{{},\"foo\"}}", body)), ("name-without-value-first", format!("{{\"foo\",{}}}", body)),
+            ("trailing-garbage", format!("{} x", text)), ("trailing-object", format!("{}{}", text, text)), ("unterminated", format!("{{{}", body)),
+            ("trailing-comma", format!("{{{},}}", body)), ("leading-comma", format!("{{,{}}}", body)), ("double-comma", body.replacen(',', ",,", 1).to_string().pipe_wrap()),
+            ("missing-comma", format!("{{{}}}", body.replacen(',', " ", 1))), ("missing-colon", format!("{{{}}}", body.replacen(':', " ", 1))),
+            ("single-quotes", text.replace('"', "'")), ("array", format!("[{}]", text)), ("string", format!("\"{}\"", body.replace('"', "\\\""))),
+            ("key_ops-leading-comma", format!("{{{},\"key_ops\":[,\"sign\"]}}", body)), ("key_ops-missing-comma", format!("{{{},\"key_ops\":[,\"sign\" \"verify\"]}}", body)),
+            ("key_ops-trailing-comma", format!("{{{},\"key_ops\":[\"sign\",]}}", body)), ("unquoted-value", format!("{{{},\"foo\":bar}}", body)),
+            ("unknown-garbage-value", format!("{{{},\"foo\":@@@[[[}}", body)),
+        ] {
+            o.text_case("c14:jwk", &t, &format!("not-json:{}", name), Some("err"), extra());
+            o.text_case("c14:parse", &t, &format!("not-json:{}", name), Some("err"), json!({}));
+        }
+    }
+}
+
+trait PipeWrap { fn pipe_wrap(self) -> String; }
+impl PipeWrap for String { fn pipe_wrap(self) -> String { format!("{{{}}}", self) } }
+
+fn gen_bytes(o: &mut Out, r: &mut Rng, thorough: bool) {
+    let reps = if thorough { 4 } else { 1 };
+    for info in algs() {
+        // secret bytes of every length 0..130
+        for len in 0..=130usize {
+            for rep in 0..reps {
+                let mut b = r.bytes(len);
+                if info.class == Class::Bls && len == 32 && rep == 0 { b[0] %= 0x73; }
+                let mut prim = Map::new();
+                hints_bytes(&mut prim, info.name, Some(&b), None);
+                o.push(json!({"kind": "c14:secret", "alg": info.name, "bytes": hex::encode(&b), "class": format!("len:{}", len), "prim": prim}));
+            }
+        }
+        // right length, special values
+        let n = info.sk;
+        let mut specials: Vec<Vec<u8>> = vec![vec![0u8; n], vec![0xffu8; n], { let mut v = vec![0u8; n]; v[n - 1] = 1; v }];
+        for h in [ORDER_P256, ORDER_K256, ORDER_BLS, ORDER_P384] {
+            let ord = hex::decode(h).unwrap();
+            if ord.len() == n {
+                specials.push(ord.clone());
+                let mut m = ord.clone(); let l = m.len(); m[l - 1] -= 1; specials.push(m);
+                let mut p = ord.clone(); let l = p.len(); p[l - 1] += 1; specials.push(p);
+            }
+        }
+        for _ in 0..(if thorough { 20 } else { 4 }) { specials.push(random_secret(r, &info)); }
+        for b in specials {
+            let mut prim = Map::new();
+            hints_bytes(&mut prim, info.name, Some(&b), None);
+            o.push(json!({"kind": "c14:secret", "alg": info.name, "bytes": hex::encode(&b), "class": "special", "prim": prim}));
+        }
+        // public bytes of every length 0..130 (symmetric algorithms: a few lengths)
+        for len in 0..=130usize {
+            if info.class == Class::Sym && !(len == 0 || len == info.sk || len == 33) { continue; }
+            for _ in 0..reps {
+                let mut b = r.bytes(len);
+                if info.class == Class::Ec && len > 0 && r.chance(3, 4) { b[0] = *r.pick(&[0u8, 2, 3, 4, 5]); }
+                let mut prim = Map::new();
+                hints_bytes(&mut prim, info.name, None, Some(&b));
+                o.push(json!({"kind": "c14:public", "alg": info.name, "bytes": hex::encode(&b), "class": format!("len:{}", len), "prim": prim}));
+            }
+        }
+        if info.class == Class::Sym { continue; }
+        // valid public keys in every accepted encoding, and near misses
+        for _ in 0..(if thorough { 12 } else { 3 }) {
+            let sk = random_secret(r, &info);
+            let k = import_secret(info.alg, &sk).unwrap();
+            let s = summary(&k);
+            let pk = hex::decode(s["public"].as_str().unwrap()).unwrap();
+            let mut variants: Vec<(String, Vec<u8>, Option<&str>)> = vec![("valid".into(), pk.clone(), Some("ok"))];
+            if info.class == Class::Ec {
+                let v: Value = serde_json::from_str(s["jwk_public"].as_str().unwrap()).unwrap();
+                let x = b64d(v["x"].as_str().unwrap().as_bytes()).unwrap();
+                let y = b64d(v["y"].as_str().unwrap().as_bytes()).unwrap();
+                variants.push(("valid:uncompressed".into(), [vec![4u8], x.clone(), y.clone()].concat(), Some("ok")));
+                variants.push(("valid:other-parity".into(), [vec![pk[0] ^ 1], x.clone()].concat(), Some("ok")));
+                variants.push(("compact-tag".into(), [vec![5u8], x.clone()].concat(), None));
+                let mut y2 = y.clone(); let l = y2.len(); y2[l - 1] ^= 1;
+                variants.push(("off-curve:uncompressed-y-flipped".into(), [vec![4u8], x.clone(), y2].concat(), Some("err")));
+                variants.push(("off-curve:uncompressed-random".into(), [vec![4u8], r.bytes(2 * info.sk)].concat(), Some("err")));
+                variants.push(("identity".into(), vec![0u8], Some("err")));
+                variants.push(("bad-tag".into(), [vec![6u8], x.clone()].concat(), Some("err")));
+                variants.push(("hybrid-tag".into(), [vec![7u8], x.clone(), y.clone()].concat(), Some("err")));
+                variants.push(("x-not-reduced".into(), [vec![2u8], vec![0xffu8; info.sk]].concat(), Some("err")));
+                variants.push(("truncated".into(), pk[..pk.len() - 1].to_vec(), Some("err")));
+                variants.push(("extended".into(), [pk.clone(), vec![0u8]].concat(), Some("err")));
+            } else {
+                let mut f = pk.clone(); f[3] ^= 4;
+                variants.push(("bit-flipped".into(), f, if info.name == "x25519" { Some("ok") } else if info.class == Class::Bls { Some("err") } else { None }));
+                variants.push(("truncated".into(), pk[..pk.len() - 1].to_vec(), Some("err")));
+                variants.push(("extended".into(), [pk.clone(), vec![0u8]].concat(), Some("err")));
+                variants.push(("all-zero".into(), vec![0u8; info.pk], if info.class == Class::Bls { Some("err") } else { None }));
+                variants.push(("all-ff".into(), vec![0xffu8; info.pk], if info.class == Class::Bls { Some("err") } else { None }));
+                if info.class == Class::Bls {
+                    // compressed point at infinity
+                    let mut inf = vec![0u8; info.pk]; inf[0] = 0xc0; if info.pk == 144 { inf[48] = 0xc0; }
+                    variants.push(("identity".into(), inf, None));
+                }
+            }
+            for (name, b, exp) in variants {
+                let mut prim = Map::new();
+                hints_bytes(&mut prim, info.name, None, Some(&b));
+                let mut c = json!({"kind": "c14:public", "alg": info.name, "bytes": hex::encode(&b), "class": format!("public:{}", name), "prim": prim});
+                if let Some(e) = exp { c["expect"] = json!(e); }
+                o.push(c);
+            }
+        }
+    }
+}
+
+fn gen_b64(o: &mut Out, r: &mut Rng, thorough: bool) {
+    let sizes = [0usize, 1, 2, 3, 4, 5, 6, 7, 8, 15, 16, 17, 31, 32, 33, 47, 48, 49, 64, 96, 144];
+    for &n in &sizes {
+        // valid encodings of every length around the bound
+        for len in n.saturating_sub(3)..=n + 3 {
+            let b = r.bytes(len);
+            o.text_case("c14:b64", &b64e(&b), "valid", None, json!({"n": n}));
+        }
+        let b = r.bytes(n.max(2));
+        let v = b64e(&b);
+        let mut bad = vec![format!("{}=", v), format!("{}==", v), v.replace('-', "+").replace('_', "/"), format!("{}A", v), format!("{} ", v), format!(" {}", v),
+            format!("{}\n", v), v[..v.len() - 1].to_string(), format!("{}é", v), format!("{}+", &v[..v.len() - 1]), format!("{}/", &v[..v.len() - 1]), "=".into(), "A".into(), "A=".into(), "AA==".into(), "AAA=".into(), "AAAAA".into(), "====".into()];
+        if v.len() % 4 != 0 {
+            let last = B64.iter().position(|&a| a == v.as_bytes()[v.len() - 1]).unwrap();
+            for bit in [1usize, 2, 3, 8] { bad.push(format!("{}{}", &v[..v.len() - 1], B64[(last | bit) & 63] as char)); }
+        }
+        for t in bad { o.text_case("c14:b64", &t, "malformed", None, json!({"n": n})); }
+        // random strings over the alphabet plus a few foreign characters
+        for _ in 0..(if thorough { 40 } else { 6 }) {
+            let len = r.below((4 * n + 2) / 3 + 4);
+            let t: String = (0..len).map(|_| if r.chance(1, 40) { *r.pick(&['=', '+', '/', ' ', '.']) } else { B64[r.below(64)] as char }).collect();
+            o.text_case("c14:b64", &t, "random", None, json!({"n": n}));
+        }
+    }
+}
+
+pub fn gen(r: &mut Rng, thorough: bool, count: Option<usize>) -> Vec<Value> {
+    let mut o = Out { cases: vec![] };
+    gen_b64(&mut o, r, thorough);
+    for _ in 0..(if thorough { 6 } else { 1 }) {
+        for info in algs() { gen_jwk_for_alg(&mut o, r, &info, thorough); }
+    }
+    // documents that are not objects
+    for t in ["", " ", "{}", "[]", "null", "true", "17", "\"kty\"", "{", "}", "{\"kty\"", "{\"kty\":", "{\"kty\":\"OKP\"", "{\"kty\":\"OKP\"}", "{\"kty\":17}", "{\"kty\":null}",
+        "{\"kty\":\"OKP\",\"crv\":\"Ed25519\"}", "{\"kty\":\"OKP\",\"crv\":\"Ed25519\",\"x\":17}", "{\"kty\":\"oct\",\"k\":\"AAAAAAAAAAAAAAAAAAAAAA\",\"alg\":\"A128GCM\"}"] {
+        o.text_case("c14:jwk", t, "degenerate", if t.contains("\"oct\"") { Some("ok") } else { Some("err") }, json!({"prim": {}, "alg_class": if t.contains("\"oct\"") { "sym" } else { "none" }}));
+        o.text_case("c14:parse", t, "degenerate", None, json!({}));
+    }
+    gen_bytes(&mut o, r, thorough);
+    let mut cases = o.cases;
+    if let Some(n) = count {
+        // a spread sample that keeps every kind
+        let step = (cases.len() / n.max(1)).max(1);
+        cases = cases.into_iter().step_by(step).take(n).collect();
+    }
+    cases
 }
